@@ -12,7 +12,8 @@
 (* Grid: tx type x gas limit {exact need, 2x, large(, intrinsic)} x price    *)
 (* relations to base fee and floor x multiplier x minGasPrice x program      *)
 (* (success, calldata + access list, revert, out of gas, refund-heavy         *)
-(* SSTORE clearing), two-message transactions, NoBaseFee, and Cosmos txs      *)
+(* SSTORE clearing), multi-message transactions of one sender and of 2-3     *)
+(* different senders, NoBaseFee, block gas limit, and Cosmos txs              *)
 (* with and without the DynamicFee extension option.                          *)
 (***************************************************************************)
 EXTENDS EvmFees
@@ -76,7 +77,7 @@ LimitKinds(prog) == {"exact", "double", "large"} \cup (IF prog = "revert" THEN {
 
 Msg(type, prog, price, lk, value) ==
     LET sh == Shape(type, prog)
-        m0 == [type |-> type, gas |-> "0", gasPrice |-> price.gp, cap |-> price.cap, tip |-> price.tip, value |-> value,
+        m0 == [from |-> "a1", type |-> type, gas |-> "0", gasPrice |-> price.gp, cap |-> price.cap, tip |-> price.tip, value |-> value,
                prog |-> prog, nz |-> sh.nz, z |-> sh.z, alAddrs |-> sh.alAddrs, alKeys |-> sh.alKeys, slots |-> sh.slots,
                twinGas |-> IF prog = "sstore" THEN "model" ELSE "-1", resp |-> NoResp]
         gas == CASE lk = "exact"     -> NeedGas(m0)
@@ -86,6 +87,9 @@ Msg(type, prog, price, lk, value) ==
                  [] lk = "intrinsic" -> Intrinsic(m0)
                  [] lk = "large"     -> "1000001"
     IN [m0 EXCEPT !.gas = gas]
+
+\* the same message signed by another account
+MsgF(from, type, prog, price, lk, value) == [Msg(type, prog, price, lk, value) EXCEPT !.from = from]
 
 Eth(tag, par, ms) == [tag |-> tag, par |-> par, route |-> "eth", cos |-> NoCos, msgs |-> ms]
 
@@ -128,6 +132,22 @@ EthMulti == { Eth("multi", Par(B, FALSE, mgp, mult), <<Msg(a[1], a[2], a[3], lk,
             { Eth("multi-bad", Par(B, FALSE, DecOfInt(B2), Half), <<Msg("dynamic", "transfer", Dyn(B3, B), "double", "7"), Msg(b[1], "transfer", b[2], b[3], "3")>>) :
                  b \in {<<"legacy", Leg(B2m1), "double">>, <<"dynamic", Dyn(Bm1, "0"), "double">>, <<"legacy", Leg(B2), "below">>} }
 
+\* messages of DIFFERENT senders in one transaction (every message carries its own signature):
+\* different programs, prices and gas limits per message
+LkPairs == {<<"exact", "double">>, <<"double", "large">>, <<"double", "double">>}
+EthMultiSender2 == { Eth("multisender", Par(B, FALSE, mgp, mult), <<MsgF("a1", a[1], a[2], a[3], lk[1], "7"), MsgF("a2", b[1], b[2], b[3], lk[2], "3")>>) :
+                        a \in Kinds, b \in Kinds, lk \in LkPairs, mgp \in {"0", DecOfInt(B2)}, mult \in MultSet }
+Kinds3 == {<<"dynamic", "transfer", Dyn(B3, B)>>, <<"legacy", "revert", Leg(B2)>>, <<"access", "invalid", Leg(B3)>>, <<"dynamic", "sstore", Dyn(B2, B2)>>}
+SenderPatterns == {<<"a1", "a2", "a3">>, <<"a1", "a2", "a1">>, <<"a2", "a2", "a1">>, <<"a3", "a1", "a3">>}
+EthMultiSender3 == { Eth("multisender", Par(B, FALSE, DecOfInt(B), mult),
+                         <<MsgF(sp[1], a[1], a[2], a[3], "exact", "7"), MsgF(sp[2], b[1], b[2], b[3], "double", "3"), MsgF(sp[3], c[1], c[2], c[3], "large", "2")>>) :
+                        a \in Kinds3, b \in Kinds3, c \in Kinds3, sp \in SenderPatterns, mult \in (IF Tier = "thorough" THEN MultSet ELSE {Half}) }
+\* a message of the second sender is below the floor / below the base fee / lacks intrinsic gas
+EthMultiSenderBad == { Eth("multisender-bad", Par(B, FALSE, DecOfInt(B2), Half),
+                           <<MsgF("a1", "dynamic", "transfer", Dyn(B3, B), "double", "7"), MsgF("a2", b[1], "transfer", b[2], b[3], "3")>>) :
+                          b \in {<<"legacy", Leg(B2m1), "double">>, <<"dynamic", Dyn(Bm1, "0"), "double">>, <<"legacy", Leg(B2), "below">>} }
+EthMultiSender == EthMultiSender2 \cup EthMultiSender3 \cup EthMultiSenderBad
+
 \* Cosmos transactions: fee = price x gas
 CosGas == "200000"
 Cos(price, has, ext, prio) == [gas |-> CosGas, fee |-> BigMul(price, CosGas), hasFee |-> has, ext |-> ext, maxPrio |-> prio, amount |-> "5"]
@@ -145,12 +165,13 @@ CosFrac == { [tag |-> "cosmos-frac", par |-> Par(B, FALSE, FracMgp, Half), route
 
 CosBlockGas == { [tag |-> "blockgas", par |-> SmallBlock, route |-> "cosmos", cos |-> Cos(B2, TRUE, "none", "0"), msgs |-> <<>>] }
 
-SmallFamilies == EthSide \cup EthNoBase \cup EthZeroBase \cup EthBlockGas \cup EthMulti \cup CosGrid \cup CosFrac \cup CosBlockGas
+SmallFamilies == EthSide \cup EthNoBase \cup EthZeroBase \cup EthBlockGas \cup EthMulti \cup EthMultiSender \cup CosGrid \cup CosFrac \cup CosBlockGas
 
 ---------------------------------------------------------------------------
 Rich == "1000000000000000000000000"
+RichPre == [a1 |-> Rich, a2 |-> Rich, a3 |-> Rich, rcpt |-> Rich, collector |-> "0"]
 ModelEvent(x) ==
-    MEvent(x @@ [pre |-> [sender |-> Rich, rcpt |-> Rich, collector |-> "0"], post |-> [sender |-> Rich, rcpt |-> Rich, collector |-> "0"],
+    MEvent(x @@ [pre |-> RichPre, post |-> RichPre,
                  res |-> [code |-> 1, gasUsed |-> "0", gasWanted |-> "0"], scn |-> 0])
 
 \* the script of a scenario: the inputs only
